@@ -414,6 +414,23 @@ type c20Event struct {
 	D    int
 }
 
+// c20BadRequests are submissions that must be refused: their document is not a valid original document, or the request is
+// not a valid payload.
+func c20BadRequests() [][]byte {
+	rk, uk := fx.NewKey(fx.Ed25519, "c20/bad/r"), fx.NewKey(fx.Ed25519, "c20/bad/u")
+	mk := func(p ...interface{}) []byte {
+		req, _ := fx.Create(&fx.CreateSpec{RecoveryCommit: fx.Commit(rk, fx.SHA256), UpdateCommit: fx.Commit(uk, fx.SHA256), Code: fx.SHA256, Patches: p})
+		return req
+	}
+	return [][]byte{
+		mk(fx.AddServicePatch("s1", "https://example.com/1"), fx.JSONPatch(fx.JOp("add", "/id", "did:sidetree:forged"))),
+		mk(fx.AddServicePatch("s1", "https://example.com/1"), fx.JSONPatch(fx.JOp("add", "/@context", []interface{}{"https://www.w3.org/ns/did/v1"}))),
+		mk(fx.JSONPatch(fx.JOp("remove", "/absent", nil))), // delta that does not apply: empty document
+		[]byte(`{"type":"update","delta":{}}`),
+		[]byte(`{"type":"create"`),
+	}
+}
+
 func (e c20Event) String() string {
 	if e.Kind == "submit" {
 		return fmt.Sprintf("submit(d%d)", e.D)
@@ -474,6 +491,17 @@ func c20Replay(cfg c20Config, pools []*fx.Pool, events []c20Event) (*c20Model, s
 					return m, "create-response-missing", fmt.Sprintf("event %d: create of d%d returned no document", i, e.D)
 				}
 				n.created[e.D] = res
+			}
+		case "submitBad":
+			// requests the document validator / intake must refuse: creates whose document carries an id or a context, an
+			// update without didSuffix, garbage. The reference state does not change; any trace shows up as a ledger difference.
+			for bi, req := range c20BadRequests() {
+				if _, code := n.restSubmit(req); code == http.StatusOK {
+					return m, "acceptance:invalid-request", fmt.Sprintf("event %d: invalid request #%d was accepted (HTTP 200): %s", i, bi, hx.Trunc(string(req), 200))
+				}
+			}
+			if got, want := int(n.queue.Len()), len(m.q.Q); got != want {
+				return m, "refused-request-queued", fmt.Sprintf("event %d: queue holds %d operations after refused submissions, reference %d", i, got, want)
 			}
 		case "tickM":
 			n.writer.VerifStep(false)
@@ -590,7 +618,7 @@ func c20Visible(m *c20Model, d int) []string {
 
 func c20(r *hx.Run) {
 	fx.Quiet()
-	r.Rule = "breadth-first search over event sequences {submit next scripted request of DID d, monitor tick, timeout tick, observe (deliver all pending ledger transactions), advance (switch to the second protocol version)} on a node assembled only from the library's real parts (REST update/resolve handlers -> DocumentHandler with default decorator -> Writer/cutter/MemQueue -> OperationHandler -> CAS -> harness ledger -> Observer -> TxnProcessor/OperationProvider -> store -> processor -> didtransformer), de-duplicated on the reference state; every transition replays the sequence on a fresh node in lock-step with the reference (acceptance rule, queue/batch model, ledger, ref/sidetree resolution, independent projection); configurations vary scripts (C U U / C U R U / C D U / C R D / C U(alias) / C U(json-patch); the two protocol versions each enable a patch action the other lacks), unpublished-operation store and one or two protocol versions. Non-trivial: states in which at least one DID resolves with an operation applied after its create."
+	r.Rule = "breadth-first search over event sequences {submit next scripted request of DID d, monitor tick, timeout tick, observe (deliver all pending ledger transactions), submit invalid requests (document with id / context, non-applying delta, malformed: must be refused without a trace), advance (switch to the second protocol version)} on a node assembled only from the library's real parts (REST update/resolve handlers -> DocumentHandler with default decorator -> Writer/cutter/MemQueue -> OperationHandler -> CAS -> harness ledger -> Observer -> TxnProcessor/OperationProvider -> store -> processor -> didtransformer), de-duplicated on the reference state; every transition replays the sequence on a fresh node in lock-step with the reference (acceptance rule, queue/batch model, ledger, ref/sidetree resolution, independent projection); configurations vary scripts (C U U / C U R U / C D U / C R D / C U(alias) / C U(json-patch); the two protocol versions each enable a patch action the other lacks), unpublished-operation store and one or two protocol versions. Non-trivial: states in which at least one DID resolves with an operation applied after its create."
 	configs := []c20Config{
 		{"AB|nounpub|1ver", [][]string{{"C", "U01", "U12"}, {"C", "U01", "R01", "V01"}}, false, false, 2},
 		{"CD|unpub|1ver", [][]string{{"C", "D0", "U01"}, {"C", "R01", "D1"}}, true, false, 2},
@@ -643,7 +671,7 @@ func c20(r *hx.Run) {
 			}
 			continue
 		}
-		evs := []c20Event{{Kind: "submit", D: 0}, {Kind: "submit", D: 1}, {Kind: "tickM"}, {Kind: "tickT"}, {Kind: "observe"}}
+		evs := []c20Event{{Kind: "submit", D: 0}, {Kind: "submit", D: 1}, {Kind: "tickM"}, {Kind: "tickT"}, {Kind: "observe"}, {Kind: "submitBad"}}
 		if cfg.TwoVer {
 			evs = append(evs, c20Event{Kind: "advance"})
 		}
